@@ -378,12 +378,17 @@ func (s *Server) Modify(ms spb.GRIBI_ModifyServer) error {
 	}()
 
 	resultDone := make(chan struct{})
+	senderDone := make(chan struct{})
 	go func() {
+		defer close(senderDone)
 		for {
 			select {
 			case res := <-resultChan:
 				if err := ms.Send(res); err != nil {
-					errCh <- status.Errorf(codes.Internal, "cannot write message to client channel, %s", res)
+					select {
+					case errCh <- status.Errorf(codes.Internal, "cannot write message to client channel, %s", res):
+					case <-resultDone:
+					}
 					return
 				}
 			case <-resultDone:
@@ -394,6 +399,9 @@ func (s *Server) Modify(ms spb.GRIBI_ModifyServer) error {
 
 	err := <-errCh
 	close(resultDone)
+	// Returning ends the stream: a response that the sender has already taken
+	// from resultChan has to be written first, or the client never sees it.
+	<-senderDone
 
 	// when this client goes away, we need to clean up its state.
 	s.deleteClient(cid)
